@@ -130,6 +130,23 @@ func (m *CPU) Run(app risc.Application) (int, error) {
 
 		if ret {
 			log.Info(m.ctx, "\t🛑 Return")
+			// The instructions still in an execute unit are older than the return:
+			// they have to complete
+			for busy := true; busy; {
+				busy = false
+				for _, eu := range m.executeUnits {
+					if eu.isEmpty() {
+						continue
+					}
+					busy = true
+					if _, _, _, _, err := eu.cycle(cycle, m.ctx, app); err != nil {
+						return 0, err
+					}
+				}
+				if busy {
+					cycle++
+				}
+			}
 			m.counterFlush++
 			cycle++
 			m.writeBus.Connect(cycle)
